@@ -43,6 +43,7 @@ def plan(tier, seed):
     shards.append(("filters", tier))
     shards.append(("outer", tier))
     shards.append(("grainsino", tier))
+    shards.append(("pbpmask", tier))
     for c in range(4):
         shards.append(("grainsino_build", c, 4, tier))
     k = seed % len(shards)
@@ -605,10 +606,76 @@ def _run_grainsino(desc):
             if np.hypot(ci - ri, cj - rj) > 1.5:
                 sh.violation("reconstruction-not-where-geometry-predicts", dict(case, sx=sx, sy=sy), {"found": [ci, cj], "predicted": [float(ri), float(rj)]})
                 return sh
+            if L == 1:
+                # a sub-set of the projections, named in each of the ways numpy indexing allows (index list, range, slice-like array,
+                # boolean mask): the same reconstruction as run_iradon on that sub-sinogram
+                sel = np.arange(len(omega)) % 3 != 1
+                want_sub = R.run_iradon(np.ascontiguousarray(sino[:, sel]), omega[sel], pad=pad, shift=shift, workers=1)
+                for how, proj in (("index array", np.nonzero(sel)[0]), ("list", [int(q) for q in np.nonzero(sel)[0]]), ("boolean mask", sel.copy())):
+                    with contextlib.redirect_stdout(io.StringIO()):
+                        rsub = gs.recon(method="iradon", workers=1, projections=proj)
+                    if rsub.shape != want_sub.shape or not np.allclose(rsub, want_sub, rtol=0, atol=1e-9 * max(1.0, np.abs(want_sub).max())):
+                        sh.violation("GrainSinogram.recon[projections=%s]:differs-from-run_iradon-on-the-selected-projections" % how, case, {})
+                        return sh
+                    sh.evaluations += 1
             sh.evaluations += 1
             if L > 1:
                 sh.nontrivial += 1
     sh.outcomes.add("grainsino")
+    sh.sample(case, limit=1)
+    return sh
+
+
+def _run_pbpmask(desc):
+    """the whole-sample reconstruction inside point_by_point (PBPRefine.setmap + setmask: sinogram of all peaks, the module's own shift,
+    a pad that makes the image the size of the refinement grid): a small round sample at (sx, sy) shows up in the mask within 1.5 px of
+    sample_to_recon, for rotation axes up to 8 steps off the middle of the scan, even and odd scan lengths, three step sizes"""
+    _, tier = desc
+    import types, io, contextlib
+    from ImageD11.sinograms import geometry as G
+    from ImageD11.sinograms.point_by_point import PBPRefine
+    sh = Shard()
+    nomega = 90
+    for ny, ystep, y0_off, centre in [(41, 1.0, 0.0, (9.0, -7.0)), (40, 2.0, 0.5, (-12.0, 10.0)), (41, 1.0, 6.0, (5.5, 8.0)), (44, 0.5, -8.0, (-3.0, 2.5)),
+                                      (55, 2.0, 3.0, (-14.0, -20.0)), (40, 1.0, -5.0, (0.0, 6.0)), (41, 2.5, 4.0, (10.0, 0.0))] + \
+            ([(60, 1.0, 8.0, (7.0, 7.0)), (61, 0.5, -7.5, (2.0, -3.0))] if tier != "quick" else []):
+        ymin = 100.0
+        ybincens = ymin + ystep * np.arange(ny)
+        y0 = ymin + ((ny - 1) / 2.0 + y0_off) * ystep
+        ostep = 180.0 / nomega
+        obincens = (np.arange(nomega) + 0.5) * ostep
+        dset = types.SimpleNamespace(ybincens=ybincens, ystep=ystep, ymin=ymin, ybinedges=np.linspace(ymin - ystep / 2, ybincens[-1] + ystep / 2, ny + 1),
+                                     obincens=obincens, obinedges=np.arange(nomega + 1) * ostep, refmapfile=None, refpeaksfile=None, refoutfile=None,
+                                     refmanfile=None)
+        sx, sy = centre
+        pts = [(sx + a * ystep * 0.5, sy + b * ystep * 0.5) for a in range(-6, 7) for b in range(-6, 7) if (a * 0.5) ** 2 + (b * 0.5) ** 2 <= 2.5 ** 2]
+        dty = np.concatenate([G.dty_values_grain_in_beam(px, py, y0, obincens) for (px, py) in pts])
+        omega = np.concatenate([obincens for _ in pts])
+        case = {"kind": "pbpmask", "ny": ny, "ystep": ystep, "y0_steps_off_the_middle": y0_off, "sample_centre": list(centre)}
+        if not (dty.min() > dset.ybinedges[0] and dty.max() < dset.ybinedges[-1]):
+            sh.count("skipped_sample_leaves_scanned_range")
+            continue
+        ij = np.array(G.step_grid_from_ybincens(ybincens, ystep, 1, y0))
+        with contextlib.redirect_stdout(io.StringIO()):
+            ref = PBPRefine(dset, "phase", y0=y0)
+            ref.setmap(types.SimpleNamespace(i=ij[:, 0], j=ij[:, 1]))
+            ref.icolf = types.SimpleNamespace(dty=dty, omega=omega)
+            ref.setmask(use_icolf=True)
+        mask = np.asarray(ref.mask)
+        if mask.shape != ref.sx_grid.shape or not mask.any():
+            sh.violation("PBPRefine.setmask:mask-empty-or-not-the-shape-of-the-grid", case, {"shape": list(mask.shape), "grid": list(ref.sx_grid.shape)})
+            continue
+        ri, rj = G.sample_to_recon(sx, sy, mask.shape, ystep)
+        ii, jj = np.nonzero(mask)
+        err = float(np.hypot(ii.mean() - ri, jj.mean() - rj))
+        sh.counters["max_mask_centre_error_milli_px"] = max(sh.counters.get("max_mask_centre_error_milli_px", 0), int(err * 1000))
+        if err > 1.5:
+            sh.violation("PBPRefine.setmask:sample-not-where-geometry-predicts", case, {"predicted": [float(ri), float(rj)], "mask_centre": [float(ii.mean()), float(jj.mean())],
+                                                                                    "error_px": err})
+        sh.evaluations += 1
+        if y0_off != 0:
+            sh.nontrivial += 1
+        sh.outcomes.add(("pbpmask", ny % 2, y0_off != 0))
     sh.sample(case, limit=1)
     return sh
 
@@ -711,6 +778,8 @@ def run_shard(desc):
         return _run_outer(desc)
     if desc[0] == "grainsino_build":
         return _run_grainsino_build(desc)
+    if desc[0] == "pbpmask":
+        return _run_pbpmask(desc)
     return {"conv": _run_conv, "recon": _run_recon, "linear": _run_linear, "orders": _run_orders, "filters": _run_filters,
             "grainsino": _run_grainsino}[desc[0]](desc)
 
@@ -725,6 +794,9 @@ def replay(case):
         pi = min(range(len(pos)), key=lambda k: abs(pos[k][0] * case["ystep"] - case["sx"]) + abs(pos[k][1] * case["ystep"] - case["sy"]))
         r = _run_recon(("recon", pi, "thorough"))
         r.violations = [v for v in r.violations if all(v["case"][k] == case[k] for k in ("ny", "y0", "range", "pad", "ystep"))]
+    elif kind == "pbpmask":
+        r = _run_pbpmask(("pbpmask", "thorough"))
+        r.violations = [v for v in r.violations if all(v["case"][k] == case[k] for k in ("ny", "ystep", "y0_steps_off_the_middle"))]
     elif kind == "orders":
         r = _run_orders(("orders",))
     elif kind == "filters":
